@@ -106,7 +106,8 @@ class FullGen:
                     o["b"] = e()
             return ["dev", "HPAINT", o], form
         if k == "HPRINT":
-            return ["dev", "HPRINT", {"x": e(), "y": e(), "t": es() if w[1] == "s" else e()}], form
+            numeric = w[1] == "n" and not self.on("hprint_string_only")
+            return ["dev", "HPRINT", {"x": e(), "y": e(), "t": e() if numeric else es()}], form
         if k in ("HDRAW", "PLAY"):
             return ["dev", k, {"s": es()}], form
         if k == "HBUFF":
